@@ -340,6 +340,27 @@ def _module_level_cases(case):
                                   "discharged" if ok else "violated", backend="concrete-execution", case=case,
                                   text="tensors, dicts, lists, tuples, sets and modules inside a list/tuple are loaded from the entry with the same index; the rebuilt container holds the same objects",
                                   replay=dict(kind="module")))
+        # an entry that the state to load does not hold (flatten() drops leaf-less sub-dictionaries, so a round-tripped state dict lacks them):
+        # "restoring state never depends on them" — the element is left as it is, nothing raises, the other elements are still loaded
+        for cont in (dict, list, tuple):
+            for kd in ("module", "dict", "list", "tuple"):
+                del calls[:]
+                leafless = dict(module=lambda: Mod(), dict=lambda: {}, list=lambda: [], tuple=lambda: ())[kd]()
+                t = torch.zeros(1)
+                elems = [leafless, t]
+                oldc = {0: leafless, 1: t} if cont is dict else cont(elems)
+                newc = {1: object()}
+                try:
+                    r = build()(old_state=oldc, new_state=newc)
+                    got = [r[0], r[1]]
+                    ok = isinstance(r, cont) and got[0] is leafless and got[1] is t and len(calls) == 1 and calls[0][0] is t and calls[0][1] is newc[1]
+                    why = ""
+                except BaseException as ex:  # noqa
+                    ok, why = False, f" — raised {type(ex).__name__}: {ex}"
+                out.append(result(f"{func}/absent-leaf-less-entry-is-not-needed[{case}/s{int(store)}/{cont.__name__}/{kd}]", func,
+                                  "discharged" if ok else "violated", backend="concrete-execution", case=case,
+                                  text="an element without any tensor whose entry is absent from the state to load (dropped by flatten) is kept as is, nothing raises, the remaining elements are loaded" + why,
+                                  replay=dict(kind="pruned")))
     return out
 
 
@@ -503,11 +524,36 @@ def native_shared_and_reordered():
     return None
 
 
+def native_pruned_load():
+    """restoring never depends on leaf-less sub-dictionaries: a module graph with tensor-less elements (empty module / dict / list / tuple) at dictionary
+    keys and at sequence positions loads its own state dict after the flatten / unflatten round trip, which drops those entries"""
+    import torch
+    from optimizer_modules import OptimizerModule
+    from distributed_shampoo.utils.shampoo_checkpoint_utils import flatten, unflatten
+
+    class M(OptimizerModule):
+        def __init__(self, v, empty):
+            self.d = {"e": empty(), "t": torch.tensor(v)}
+            self.l = [empty(), torch.tensor(v + 1)]
+            self.t = (torch.tensor(v + 2), empty())
+
+    for nm, empty in (("module", OptimizerModule), ("dict", dict), ("list", list), ("tuple", tuple)):
+        a, b = M(1.0, empty), M(10.0, empty)
+        try:
+            b.load_state_dict(unflatten(flatten(a.state_dict())))
+        except BaseException as e:  # noqa
+            return f"tensor-less {nm} inside dict / list / tuple of a module: loading unflatten(flatten(state_dict)) raised {type(e).__name__}: {e}"
+        if not (float(b.d["t"]) == 1.0 and float(b.l[1]) == 2.0 and float(b.t[0]) == 3.0):
+            return f"tensor-less {nm}: tensors next to the leaf-less element were not restored"
+    return None
+
+
 def native_module_roundtrip(seed, tier):
     import random
     import torch
     from optimizer_modules import OptimizerModule
     rng = random.Random(seed)
+    leafless = seed % 2 == 1
 
     class M(OptimizerModule):
         pass
@@ -520,17 +566,18 @@ def native_module_roundtrip(seed, tier):
             t = torch.randn(rng.choice([1, 2, 3]))
             tensors.append(t)
             return t
+        lo = 0 if leafless else 1  # odd seeds: containers / modules may be empty (leaf-less sub-dictionaries of the state dict)
         if r < 0.5:
             m = M()
-            for i in range(rng.randint(1, 2)):
+            for i in range(rng.randint(lo, 2)):
                 setattr(m, f"attr{i}", gen(depth - 1))
             return m
         if r < 0.65:
-            return {f"k{i}": gen(depth - 1) for i in range(rng.randint(1, 2))}
+            return {f"k{i}": gen(depth - 1) for i in range(rng.randint(lo, 2))}
         if r < 0.8:
-            return [gen(depth - 1) for _ in range(rng.randint(1, 2))]
+            return [gen(depth - 1) for _ in range(rng.randint(lo, 2))]
         if r < 0.95:
-            return tuple(gen(depth - 1) for _ in range(rng.randint(1, 2)))
+            return tuple(gen(depth - 1) for _ in range(rng.randint(lo, 2)))
         return rng.choice([3, "s", None])
 
     rng2state = rng.getstate()
@@ -578,6 +625,17 @@ def native_module_roundtrip(seed, tier):
     for a, b in zip(mine, theirs):
         if not torch.equal(a, b):
             return "a tensor reachable through the module graph was not reproduced by load_state_dict"
+    # the same through the checkpoint format: flatten drops leaf-less sub-dictionaries, restoring must not depend on them
+    from distributed_shampoo.utils.shampoo_checkpoint_utils import flatten, unflatten
+    for t in theirs:
+        t.mul_(2.0)
+    try:
+        root.load_state_dict(unflatten(flatten(other.state_dict())))
+    except BaseException as e:  # noqa
+        return f"loading unflatten(flatten(state_dict)) (leaf-less sub-dictionaries dropped) raised {type(e).__name__}: {e}"
+    for a, b in zip(mine, theirs):
+        if not torch.equal(a, b):
+            return "a tensor was not reproduced when loading unflatten(flatten(state_dict))"
     return None
 
 
@@ -587,6 +645,10 @@ def bounded(tier, seed):
     evals += n
     if bad:
         viol.append(dict(ob="bounded/flatten-unflatten-roundtrip", func="flatten/unflatten", input={}, text=bad, detail=bad, replay=dict(kind="tree")))
+    bad = native_pruned_load()
+    evals += 1
+    if bad:
+        viol.append(dict(ob="bounded/pruned-state-dict-loads", func="OptimizerModule.load_state_dict", input={}, text=bad, detail=bad, replay=dict(kind="pruned")))
     bad = native_shared_and_reordered()
     evals += 1
     if bad:
@@ -609,6 +671,9 @@ def replay(r):
 
 def replay_file(doc):
     rp = doc.get("replay_input") or {}
+    if rp.get("kind") == "pruned":
+        bad = native_pruned_load()
+        return bool(bad), bad or "a round-tripped (pruned) state dict loads into modules with leaf-less elements at dict keys and sequence positions"
     if rp.get("kind") == "module_seed":
         bad = native_module_roundtrip(rp["seed"], "quick")
         return bool(bad), str(bad)
